@@ -30,6 +30,7 @@ type task struct {
 	Shards    int              `json:"shards"`
 	ShardD    int              `json:"shard_d"`
 	OnlyProp  string           `json:"only_prop,omitempty"`
+	Replay    []int            `json:"replay,omitempty"` // race build: re-execute this schedule and report whether the detector fires
 }
 
 type violation struct {
@@ -38,6 +39,39 @@ type violation struct {
 	Decisions []int    `json:"decisions"`
 	Trace     []string `json:"trace,omitempty"`
 	Visible   string   `json:"visible"`
+	Race      bool     `json:"race,omitempty"`
+}
+
+// raceLogSize: size of this process's race-detector log (GORACE log_path=<prefix> writes <prefix>.<pid>).
+func raceLogSize() int64 {
+	pfx := os.Getenv("VERIF_RACE_LOG")
+	if pfx == "" {
+		return 0
+	}
+	st, err := os.Stat(fmt.Sprintf("%s.%d", pfx, os.Getpid()))
+	if err != nil {
+		return 0
+	}
+	return st.Size()
+}
+
+func raceLogTail(from int64) string {
+	b, err := os.ReadFile(fmt.Sprintf("%s.%d", os.Getenv("VERIF_RACE_LOG"), os.Getpid()))
+	if err != nil || int64(len(b)) <= from {
+		return ""
+	}
+	var keep []string
+	for _, l := range strings.Split(string(b[from:]), "\n") {
+		t := strings.TrimSpace(l)
+		if t == "" || strings.HasPrefix(t, "=====") || strings.Contains(t, "/zzverif/vs.") || strings.Contains(t, "zzverif/vs/") {
+			continue
+		}
+		keep = append(keep, "    "+t)
+		if len(keep) >= 24 {
+			break
+		}
+	}
+	return strings.Join(keep, "\n")
 }
 
 type result struct {
@@ -67,13 +101,37 @@ func runTask(t *task) *result {
 		cur = r
 		b()
 	}
+	if t.Replay != nil {
+		before := raceLogSize()
+		ex := vs.Replay(cfgFor(sc), body, t.Replay)
+		if ex.Term == vs.TermToolError {
+			res.ToolErr = ex.ToolErr
+			return res
+		}
+		if vs.RaceBuild && raceLogSize() > before {
+			res.Violations = append(res.Violations, violation{Prop: "C12", Msg: "race reproduced", Decisions: t.Replay, Race: true})
+		}
+		return res
+	}
 	outcomes := map[uint64]bool{}
 	waitErrs := map[string]bool{}
 	seenProp := map[string]bool{}
+	raceSeen := raceLogSize()
 	opt := vs.Options{Strategy: vs.Strategy(t.Strategy), PreemptBound: t.Preempt, Cfg: cfgFor(sc),
 		ShardIndex: t.Shard, ShardCount: t.Shards, ShardDepth: t.ShardD}
 	if t.DeadlineS > 0 {
 		opt.Deadline = start.Add(time.Duration(t.DeadlineS) * time.Second)
+	}
+	if vs.RaceBuild {
+		opt.AfterExec = func(ex *vs.Exec) bool {
+			if n := raceLogSize(); n > raceSeen {
+				res.Violations = append(res.Violations, violation{Prop: "C12", Race: true, Decisions: append([]int{}, ex.Decisions...), Visible: schedsc.Visible(cur, ex),
+					Msg: "the Go race detector reports a data race inside the scheduler in this execution:\n" + raceLogTail(raceSeen)})
+				raceSeen = n
+				return true
+			}
+			return false
+		}
 	}
 	st, terr := vs.Explore(opt, body, func(ex *vs.Exec) bool {
 		vis := schedsc.Visible(cur, ex)
@@ -246,6 +304,35 @@ func xcheck() {
 
 func scenarioKey(sc *schedsc.Scenario) string { return "sched:" + sc.String() }
 
+// confirmRace replays the schedule of a race report in fresh worker processes.
+func confirmRace(sc *schedsc.Scenario, v *violation, strat int) bool {
+	d := v.Decisions
+	if d == nil {
+		d = []int{}
+	}
+	b, _ := json.Marshal(task{Sc: *sc, Strategy: strat, Preempt: -1, Replay: d})
+	for attempt := 0; attempt < 16; attempt++ {
+		hit := false
+		err := mc.Pool(1, []string{"-worker"}, [][]byte{b}, func(i int, rb []byte) {
+			var r result
+			if json.Unmarshal(rb, &r) == nil {
+				for _, x := range r.Violations {
+					if x.Prop == "C12" {
+						hit = true
+					}
+				}
+			}
+		})
+		if err != nil {
+			mc.ToolError("race confirmation: %v", err)
+		}
+		if hit {
+			return true
+		}
+	}
+	return false
+}
+
 func replayMain(path string) {
 	rp, err := mc.ReadReplay(path)
 	if err != nil {
@@ -365,6 +452,16 @@ func main() {
 		b, _ := json.Marshal(t)
 		tasks = append(tasks, b)
 	}
+	if vs.RaceBuild {
+		dir := os.Getenv("VERIF_RACE_DIR")
+		if dir == "" {
+			mc.ToolError("race build of schedmc needs VERIF_RACE_DIR")
+		}
+		os.RemoveAll(dir)
+		os.MkdirAll(dir, 0o755)
+		os.Setenv("VERIF_RACE_LOG", dir+"/race")
+		os.Setenv("GORACE", "log_path="+dir+"/race atexit_sleep_ms=0 halt_on_error=0 exitcode=0")
+	}
 	rep := mc.NewReporter(*prop)
 	var tot vs.Stats
 	exhaustive := true
@@ -422,9 +519,18 @@ func main() {
 		}
 		for vi := range r.Violations {
 			v := &r.Violations[vi]
-			ok, trace, why := confirm(sc, v)
-			if !ok {
-				mc.ToolError("%s: %s", sc.String(), why)
+			var trace []string
+			if v.Race {
+				// the detector reports a pair of stacks once per process: confirm in fresh worker processes
+				if !confirmRace(sc, v, strat) {
+					mc.ToolError("NONDETERMINISM: a race report for %s was not reproduced by replaying its schedule in 16 fresh processes", sc.String())
+				}
+			} else {
+				ok, tr, why := confirm(sc, v)
+				if !ok {
+					mc.ToolError("%s: %s", sc.String(), why)
+				}
+				trace = tr
 			}
 			scj, _ := json.Marshal(sc)
 			rep.Report(&mc.Replay{Property: v.Prop, Engine: "schedmc", Key: scenarioKey(sc), Message: v.Msg, Scenario: scj,
@@ -484,6 +590,7 @@ func main() {
 				"capped_scenarios":              capped,
 				"known_findings_hit":            rep.KnownHits,
 				"thread_census":                 censusOut,
+				"race_detector":                 vs.RaceBuild,
 				"rule":                          "every scenario of the family is explored over all interleavings (sleep-set DFS, unbounded) of the real scheduler.go rewritten onto the vs shim; states = distinct schedule prefixes, transitions = distinct DFS edges, traces = complete executions of the implementation",
 			},
 			Assumptions: []string{
